@@ -369,7 +369,9 @@ pub fn run(args: &Args, prop: &'static str) -> i32 {
     if let Some(p) = &args.replay {
         return replay_file(p, prop);
     }
-    std::panic::set_hook(Box::new(|_| {}));
+    if std::env::var("HDMC_SHOW_PANICS").is_err() {
+        std::panic::set_hook(Box::new(|_| {}));
+    }
     let mut run = Run::new(prop, args.tier, "model_checking");
     let err = run_into(&mut run, prop, args.tier.is_thorough());
     let _ = std::panic::take_hook();
